@@ -250,6 +250,15 @@ class Opaque:
         return f"opaque:{self.desc}"
 
 
+class Inc(Opaque):
+    """`<current value of the node's field> + amount` (e.g. `after = before + float(weights.sum())`): storing it back into that
+    field is an increment by `amount`, exactly like `self.field += amount`"""
+
+    def __init__(self, field, base, amount):
+        super().__init__(f"{field}+{amount!r}")
+        self.field, self.base, self.amount = field, base, amount
+
+
 def is_nan(v):
     if v is NAN:
         return True
@@ -464,6 +473,12 @@ class Machine:
 
     # ---------------------------------------------------------------- arithmetic
     def binop(self, a, op, b):
+        if isinstance(op, ast.Add) and isinstance(getattr(self, "selfobj", None), Obj):
+            for x, y in ((a, b), (b, a)):
+                if isinstance(x, Opaque) and not isinstance(x, Inc):
+                    for fname, fval in self.selfobj.fields.items():
+                        if fval is x and not isinstance(y, (Obj, Child, Arr)):
+                            return Inc(fname, x, y)
         if isinstance(op, (ast.BitAnd, ast.BitOr)) and all(x is True or x is False or x is UNK for x in (a, b)):
             if isinstance(op, ast.BitAnd):
                 return False if (a is False or b is False) else (UNK if (a is UNK or b is UNK) else True)
@@ -734,6 +749,8 @@ class Machine:
                     return
                 if aug is not None:
                     self.effects.append(("acc+", t.attr, aug[1]))
+                elif isinstance(v, Inc) and v.field == t.attr and base.fields.get(t.attr) is v.base:
+                    self.effects.append(("acc+", t.attr, v.amount))          # self.entries = self.entries + amount (through locals)
                 else:
                     self.effects.append(("acc=", t.attr, v))
                 base.fields[t.attr] = v
